@@ -102,14 +102,17 @@ def Token.pushTrailingTrivia (x : Trivia) (t : Token) : Token :=
 
 /-! ### a parsed file as the generator sees it -/
 
-/-- Tokens of the block's statements in writing order, then the block's `final_token`
-(which carries the comments that follow the last statement). `final = none`: no such token yet. -/
+/-- Tokens of the block's statements in writing order (`tokens`: up to and including the token
+`mutate_last_token` returns), the block-level tokens written after them (`after`: the semicolon
+that follows the last statement, kept in `BlockTokens`), then the block's `final_token` (which
+carries the comments that follow the last statement). `final = none`: no such token yet. -/
 structure File where
   tokens : List Token
+  after : List Token
   final : Option Token
   deriving Repr, DecidableEq, Inhabited
 
-def File.all (f : File) : List Token := f.tokens ++ f.final.toList
+def File.all (f : File) : List Token := f.tokens ++ f.after ++ f.final.toList
 
 /-- the code of the file: every non-empty token content, in order (the generator writes nothing
 for a token with empty content, e.g. the end-of-file token) -/
@@ -131,7 +134,7 @@ def File.codeLines (f : File) : List (Option Nat) :=
   (f.all.filter (fun t => !t.content.isEmpty)).map (·.line)
 
 def File.mapTokens (g : Token → Token) (f : File) : File :=
-  { tokens := f.tokens.map g, final := f.final.map g }
+  { tokens := f.tokens.map g, after := f.after.map g, final := f.final.map g }
 
 /-! ### the three rules -/
 
